@@ -26,6 +26,63 @@ def bytes_const(t):
     return None
 
 
+def int_lin(t, argty):
+    """linear normal form of an integer expression: (constant, {atom term: coefficient}); casts are peeled, constant
+    sub-expressions folded (`x.to_be_bytes().len()` is the byte size of x's type)"""
+    from ..terms import INT_BITS
+    if t is None:
+        return (None, {})
+    while t[0] == "cast":
+        t = t[3]
+    if t[0] == "const" and isinstance(t[2], int):
+        return (t[2], {})
+    if (t[0] == "len" or is_call(t, name="len")):
+        inner = t[1] if t[0] == "len" else t[2][0]
+        if is_call(inner, name="to_be_bytes") or is_call(inner, name="to_le_bytes") or is_call(inner, name="to_ne_bytes"):
+            if inner[2][0][0] == "arg" and argty in INT_BITS:
+                return (INT_BITS[argty] // 8, {})
+    if t[0] == "bin" and t[1] in ("Add", "Sub", "AddWithOverflow", "SubWithOverflow", "AddUnchecked", "SubUnchecked"):
+        (c1, a1), (c2, a2) = int_lin(t[2], argty), int_lin(t[3], argty)
+        k = 1 if t[1].startswith("Add") else -1
+        if c1 is None or c2 is None:
+            return (None, {})
+        out = dict(a1)
+        for x, n in a2.items():
+            out[x] = out.get(x, 0) + k * n
+        return (c1 + k * c2, {x: n for x, n in out.items() if n})
+    if t[0] == "bin" and t[1] in ("Mul", "MulWithOverflow", "MulUnchecked"):
+        (c1, a1), (c2, a2) = int_lin(t[2], argty), int_lin(t[3], argty)
+        if c1 is not None and c2 is not None and not a1 and not a2:
+            return (c1 * c2, {})
+    return (0, {t: 1})
+
+
+def bit_test(fa, n, item):
+    """fact matcher: 'pass' on edges where bit `i` (the loop item) of n is set, 'fail' where it is clear.
+    Reviewed idioms: n & (1 << i) != 0,  (n >> i) & 1 == 1 / != 0."""
+    if not (fa[0] == "cond" and fa[1] == "eq" and fa[3] is not None):
+        return None
+    peel = lambda t: peel(t[3]) if t[0] == "cast" else t
+    a, b = peel(fa[2]), peel(fa[3])
+    if a[0] == "const":
+        a, b = b, a
+    if not (b[0] == "const" and isinstance(b[2], int) and a[0] == "bin" and a[1] == "BitAnd"):
+        return None
+    x, y = peel(a[2]), peel(a[3])
+    for (p, q) in ((x, y), (y, x)):
+        # n & (1 << i)
+        if p == n and q[0] == "bin" and q[1] in ("Shl", "ShlUnchecked") and peel(q[2])[0] == "const" and peel(q[2])[2] == 1 and item(peel(q[3])):
+            if b[2] == 0:
+                return "fail" if fa[4] else "pass"
+        # (n >> i) & 1
+        if q[0] == "const" and q[2] == 1 and p[0] == "bin" and p[1] in ("Shr", "ShrUnchecked") and peel(p[2]) == n and item(peel(p[3])):
+            if b[2] == 0:
+                return "fail" if fa[4] else "pass"
+            if b[2] == 1:
+                return "pass" if fa[4] else "fail"
+    return None
+
+
 def identifier_from_u16(ctx):
     """RFC 9591: identifiers are the integers 1..n as scalars.  Identifier::try_from(u16) is a double-and-add over the bits of
     n below its leading one: sum = 1; for i in (0 .. 16 - lz(n) - 1).rev(): sum = 2*sum; if n & (1 << i) != 0 { sum += 1 }.
@@ -38,27 +95,28 @@ def identifier_from_u16(ctx):
         return
     v = FnView.get(P, f)
     refusal(ctx, f, "SEP", "zero-refused", [("n==0", cmp_fact("eq", arg(1), const(0), True))], {b for (b, k, _) in ret_writes(f) if k in ("ok", "call")})
-    names = {n: l for l, n in f.var_names().items()}
+    tails = [v.cx.call(t, (f.key, b)) for (b, k, t) in ret_writes(f) if k == "call"]
+    acc = tails[0][2][0][1][1] if len(tails) == 1 and is_call(tails[0], name="new") and tails[0][2] and tails[0][2][0][0] == "phi" \
+        and tails[0][2][0][1][0] == f.key else None
+    names = {"sum": acc}
     lr = loop_report(P, f)
-    good = len(lr) == 1 and "sum" in names
+    good = len(lr) == 1 and acc is not None
     det = ""
     if good:
         lp = lr[0]
         it = lp["iter_term"]
-        rng = it[1][2][0] if it and it[0] == "iter" and is_call(it[1], name="rev") else None
-        bits16 = lambda t: t == ("bin", "Mul", ("cast", "usize", "u32", t[2][3]) if t[0] == "bin" and t[2][0] == "cast" else None, ("const", "u32", 8)) and \
-            mentions(t, lambda s: is_call(s, name="to_be_bytes") and s[2][0] == ("arg", 1))
-        good = (rng is not None and rng[0] == "agg" and dict(rng[4]).get("start") == ("const", "u32", 0))
+        sv = seq_view(it) if it else None
+        rng = sv["base"] if sv and sv["reversed"] and not sv["drop_front"] and not sv["drop_back"] else None
+        good = (rng is not None and rng[0] == "agg" and (rng[2] or "").endswith("ops::range::Range") and int_lin(dict(rng[4]).get("start"), "u16") == (0, {}))
         if good:
             end = dict(rng[4])["end"]
-            good = (end[0] == "bin" and end[1] == "Sub" and end[3] == ("const", "u32", 1) and end[2][0] == "bin" and end[2][1] == "Sub"
-                    and is_call(end[2][3], name="leading_zeros") and end[2][3][2][0] == ("arg", 1) and bits16(end[2][2]))
+            c, atoms = int_lin(end, "u16")
+            good = c == 15 and len(atoms) == 1 and list(atoms.values()) == [-1] and is_call(list(atoms)[0], name="leading_zeros") \
+                and list(atoms)[0][2][0] == ("arg", 1)
             det = fmt(end)[:160]
         # updates: doubling on every iteration, increment only when bit i of n is set
         item = lambda t: t[0] == "some" and is_call(t[1], name="next")
-        bit = lambda fa: ((("pass" if not fa[4] else "fail") if fa[0] == "cond" and fa[1] == "eq" and
-                           ((fa[3] == ("const", "u16", 0) and fa[2][0] == "bin" and fa[2][1] == "BitAnd" and fa[2][2] == ("arg", 1)
-                             and fa[2][3][0] == "bin" and fa[2][3][1] == "Shl" and fa[2][3][2] == ("const", "u16", 1) and item(fa[2][3][3]))) else None))
+        bit = lambda fa: bit_test(fa, ("arg", 1), item)
         d = defs_by_arm(f, v, names["sum"], bit, stop=frozenset({lp["header"]}))
         lv = lambda t: t[0] == "loopvar" and t[2] == names["sum"]
         dbl = [t for t in d[None] if is_call(t, name="add") and lv(t[2][0]) and lv(t[2][1])]
@@ -67,15 +125,12 @@ def identifier_from_u16(ctx):
         good = good and len(dbl) == 1 and len(inc) == 1 and len(init) == 1 and not d["fail"] and len(d[None]) == 2 and len(d["pass"]) == 1
         # whenever bit i is set the increment is executed (no further condition on the way)
         pass_targets = [e[1] for (e, fa) in v.facts if bit(fa) == "pass"]
-        acc_blocks = set(lp["acc"].get(names["sum"], set()))
         dbl_blocks = {dd[1] for dd in f.defs().get(names["sum"], []) if dd[0] in ("assign", "call") and dd[1] in lp["body"]}
         # blocks that perform the increment = sum-writes reachable only from the bit-set edge
         fail_reach = set().union(*[f.reach(e[1], stop=frozenset({lp["header"]})) for (e, fa) in v.facts if bit(fa) == "fail"]) if pass_targets else set()
         inc_blocks = {b for b in dbl_blocks if b not in fail_reach}
         _, back = body_reach(f, lp, pass_targets, removed_blocks=inc_blocks)
         good = good and bool(pass_targets) and bool(inc_blocks) and not back
-        tails = [v.cx.call(t, (f.key, b)) for (b, k, t) in ret_writes(f) if k == "call"]
-        good = good and len(tails) == 1 and is_call(tails[0], name="new") and tails[0][2][0][0] == "phi" and tails[0][2][0][1][1] == names["sum"]
     ctx.check(good, "AGREE", key, "double-and-add-over-all-bits-of-n",
               "Identifier::try_from(u16) is not the double-and-add over every bit of n below its leading one (most "
               "significant first): identifiers would not be the RFC's integers as scalars for some n (%s)" % det, f.loc)
@@ -101,7 +156,7 @@ def run(ctx):
     f = ctx.anchor(CORE + "challenge")
     if f:
         v = FnView.get(P, f)
-        oks = [v.cx.operand(rv["ops"][0]) for (b, k, rv) in ret_writes(f) if k == "ok"]
+        oks = ok_values(f, v)
         h = [s for t in oks for s in subterms(t) if is_call(s, name="H2")]
         good = len(h) == 1
         if good:
@@ -114,7 +169,7 @@ def run(ctx):
     f = ctx.anchor(CORE + "SigningPackage::<C>::binding_factor_preimages")
     if f:
         v = FnView.get(P, f)
-        oks = [v.cx.operand(rv["ops"][0]) for (b, k, rv) in ret_writes(f) if k == "ok"]
+        oks = ok_values(f, v)
         good = len(oks) == 1
         if good:
             t = oks[0]
@@ -145,7 +200,7 @@ def run(ctx):
     f = ctx.anchor(CORE + "round1::encode_group_commitments")
     if f:
         v = FnView.get(P, f)
-        oks = [v.cx.operand(rv["ops"][0]) for (b, k, rv) in ret_writes(f) if k == "ok"]
+        oks = ok_values(f, v)
         good = len(oks) == 1
         if good:
             parts = flatten(oks[0])
@@ -181,7 +236,7 @@ def run(ctx):
     f = ctx.anchor(CORE + "signature::Signature::<C>::default_serialize")
     if f:
         v = FnView.get(P, f)
-        oks = [v.cx.operand(rv["ops"][0]) for (b, k, rv) in ret_writes(f) if k == "ok"]
+        oks = ok_values(f, v)
         parts = flatten(oks[0]) if len(oks) == 1 else []
         good = len(parts) == 2 and ser(fld(arg(1), "R"))(parts[0]) and ser(fld(arg(1), "z"))(parts[1])
         ctx.check(good, "SEQ", f.key, "ser(R)||ser(z)", "RFC 9591 §5.3 / Appendix A: signature = SerializeElement(R) || SerializeScalar(z); "
@@ -189,7 +244,7 @@ def run(ctx):
     f = ctx.anchor("<frost_secp256k1_tr::Secp256K1Sha256TR as frost_core::traits::Ciphersuite>::serialize_signature")
     if f:
         v = FnView.get(P, f)
-        oks = [v.cx.operand(rv["ops"][0]) for (b, k, rv) in ret_writes(f) if k == "ok"]
+        oks = ok_values(f, v)
         good = False
         if len(oks) == 1 and oks[0][0] == "mut":
             cps = []
